@@ -50,8 +50,9 @@ type Step struct {
 	Tag     string   `json:"tag,omitempty"`    // opaque to the worker (oracle key of the orchestrator)
 
 	// write / remove
-	File string `json:"file,omitempty"`
-	Data Bytes  `json:"data,omitempty"`
+	File      string `json:"file,omitempty"`
+	Data      Bytes  `json:"data,omitempty"`
+	KeepMtime bool   `json:"keep_mtime,omitempty"` // the edit keeps the file's modification time (an edit within the timestamp granularity, or a tool that restores it)
 
 	// move
 	From string `json:"from,omitempty"`
